@@ -69,12 +69,24 @@ func (s podShape) String() string {
 	return fmt.Sprintf("owner=%s labels=%s term=%v", s.Owner, s.Labels, s.Term)
 }
 
-func c16Sets(overlap bool) (*asv1.StatefulSet, *asv1.StatefulSet) {
+// c16Selectors: how the two sets in the lister select. The labels a pod shape carries (app=web, tier=db, both,
+// unrelated, none) meet every operator both ways.
+var c16Selectors = []string{"disjoint", "overlapping", "expressions In/Exists", "expressions DoesNotExist/NotIn"}
+
+func c16Sets(overlap string) (*asv1.StatefulSet, *asv1.StatefulSet) {
 	a := gen.Spec{Name: "web", Replicas: 1, Policy: "Parallel", Strategy: gen.RU(0), Limit: 10, Template: 1}.Build()
 	b := gen.Spec{Name: "db", Replicas: 1, Policy: "Parallel", Strategy: gen.RU(0), Limit: 10, Template: 1}.Build()
 	b.Spec.Selector = &metav1.LabelSelector{MatchLabels: map[string]string{"tier": "db"}}
-	if overlap {
+	switch overlap {
+	case "overlapping":
 		b.Spec.Selector = &metav1.LabelSelector{MatchLabels: map[string]string{"app": "web"}}
+	case "expressions In/Exists":
+		a.Spec.Selector = &metav1.LabelSelector{MatchExpressions: []metav1.LabelSelectorRequirement{{Key: "app", Operator: metav1.LabelSelectorOpIn, Values: []string{"web", "web2"}}}}
+		b.Spec.Selector = &metav1.LabelSelector{MatchExpressions: []metav1.LabelSelectorRequirement{{Key: "tier", Operator: metav1.LabelSelectorOpExists}}}
+	case "expressions DoesNotExist/NotIn":
+		// web: app=web and no tier label; db: any pod whose app label is not web (pods without an app label included)
+		a.Spec.Selector = &metav1.LabelSelector{MatchLabels: map[string]string{"app": "web"}, MatchExpressions: []metav1.LabelSelectorRequirement{{Key: "tier", Operator: metav1.LabelSelectorOpDoesNotExist}}}
+		b.Spec.Selector = &metav1.LabelSelector{MatchExpressions: []metav1.LabelSelectorRequirement{{Key: "app", Operator: metav1.LabelSelectorOpNotIn, Values: []string{"web"}}}}
 	}
 	return a, b
 }
@@ -272,7 +284,7 @@ func setStr(m map[string]bool) string {
 func init() {
 	register("c16", "no lost wake-ups: event handlers and worker requeue discipline", func([]string) int {
 		rep := explore.NewReport("C16", "model_checking")
-		rep.Rule = "exhaustive event shapes on the real handlers registered by the real constructor: sets web (app=web) and db (tier=db, or overlapping app=web) in the lister; pod shapes = owner{none, web right UID, web right UID under the older API version v1alpha1, web stale UID, ReplicaSet named web, non-controller ref, db, unknown set} x labels{web, db, both, unrelated, nil} x terminating; events = add(shape), update(old shape x new shape x same/different resourceVersion), delete(object), delete(tombstone with pod), delete(tombstone with junk), delete(junk); set add / delete / tombstone and update by every kind of edit and its undo (pause annotation, delete-slots, other annotation, label, replicas, template, status, deletion timestamp, finalizer, owner reference); worker = every success/failure sequence of length <=4 and every run of 5..40 consecutive failures followed by a success (failure = InternalError on the first API call; the recording queue counts requeues like a real rate limiter). Oracle: required subset of enqueued subset of allowed keys by a reference function written from the property; failure => AddRateLimited and no Forget, success => Forget, Done always. Non-trivial = the reference requires or allows at least one key."
+		rep.Rule = "exhaustive event shapes on the real handlers registered by the real constructor: sets web and db in the lister with selectors {app=web | tier=db; both app=web; app In (web,web2) | tier Exists; app=web and tier DoesNotExist | app NotIn (web)}; pod shapes = owner{none, web right UID, web right UID under the older API version v1alpha1, web stale UID, ReplicaSet named web, non-controller ref, db, unknown set} x labels{web, db, both, unrelated, nil} x terminating; events = add(shape), update(old shape x new shape x same/different resourceVersion), delete(object), delete(tombstone with pod), delete(tombstone with junk), delete(junk); set add / delete / tombstone and update by every kind of edit and its undo (pause annotation, delete-slots, other annotation, label, replicas, template, status, deletion timestamp, finalizer, owner reference); worker = every success/failure sequence of length <=4 and every run of 5..40 consecutive failures followed by a success (failure = InternalError on the first API call; the recording queue counts requeues like a real rate limiter). Oracle: required subset of enqueued subset of allowed keys by a reference function written from the property; failure => AddRateLimited and no Forget, success => Forget, Done always. Non-trivial = the reference requires or allows at least one key."
 		rep.Assumptions = []string{"selectors in the lister are valid ones", "orphan update without label/owner change and orphan delete are don't-care (property does not fix them)"}
 		var owners = []string{"none", "A", "Aoldversion", "Astale", "Akind", "Anonctrl", "B", "C"}
 		var labs = []string{"A", "B", "both", "none", "nil"}
@@ -285,7 +297,7 @@ func init() {
 			}
 		}
 		var events int64
-		for _, overlap := range []bool{false, true} {
+		for _, overlap := range c16Selectors {
 			w := world.New()
 			a, b := c16Sets(overlap)
 			sets := []*asv1.StatefulSet{a, b}
@@ -423,7 +435,8 @@ func init() {
 						q.log, q.items = nil, []interface{}{key}
 						var plan world.FaultPlan
 						if fail {
-							plan = world.FaultPlan{"list controllerrevisions [app=web] #0": world.FErr500}
+							sel, _ := metav1.LabelSelectorAsSelector(a.Spec.Selector)
+							plan = world.FaultPlan{"list controllerrevisions [" + sel.String() + "] #0": world.FErr500}
 							seq = append(seq, "fail")
 						} else {
 							seq = append(seq, "ok")
